@@ -526,7 +526,7 @@ fn history_part(rep: &mut Report) {
         while idx >= n.pow(len) { idx -= n.pow(len); len += 1; }
         let mut seq = Vec::new();
         for _ in 0..len { seq.push((idx % n) as usize); idx /= n; }
-        for (via_sink, kind) in [(false, io::ErrorKind::Other), (true, io::ErrorKind::Other), (true, io::ErrorKind::WouldBlock), (true, io::ErrorKind::TimedOut)] {
+        for (via_sink, kind, make_writer) in [(false, io::ErrorKind::Other, false), (true, io::ErrorKind::Other, false), (true, io::ErrorKind::WouldBlock, false), (true, io::ErrorKind::TimedOut, false), (false, io::ErrorKind::Other, true), (true, io::ErrorKind::WriteZero, true)] {
             // first without a fault (also tells how many write calls the history makes)
             let mut fail_at: Option<usize> = None;
             let mut max_calls = 0usize;
@@ -537,27 +537,38 @@ fn history_part(rep: &mut Report) {
                 let mut bounds = vec![0usize];
                 let mut calls_at = vec![0usize];
                 let mut results: Vec<Option<bool>> = Vec::new();
+                macro_rules! drive {
+                    ($stream:expr) => {{
+                        let mut stream = $stream;
+                        if via_sink {
+                            let sink = FlushImmediately::new(stream);
+                            for e in entries {
+                                sink.append(e);
+                                results.push(None);
+                                bounds.push(w.got.lock().unwrap().len());
+                                calls_at.push(*w.calls.lock().unwrap());
+                            }
+                        } else {
+                            for e in &entries {
+                                results.push(Some(stream.next(e).is_ok()));
+                                bounds.push(w.got.lock().unwrap().len());
+                                calls_at.push(*w.calls.lock().unwrap());
+                            }
+                        }
+                    }};
+                }
                 let r = std::panic::catch_unwind(std::panic::AssertUnwindSafe(|| {
-                    let mut stream = pristine.clone().output_to(w.clone());
-                    if via_sink {
-                        let sink = FlushImmediately::new(stream);
-                        for e in entries {
-                            sink.append(e);
-                            results.push(None);
-                            bounds.push(w.got.lock().unwrap().len());
-                            calls_at.push(*w.calls.lock().unwrap());
-                        }
+                    if make_writer {
+                        // the other public route to a stream: a fresh writer handle per entry
+                        let wc = w.clone();
+                        drive!(pristine.clone().output_to_makewriter(move || wc.clone()))
                     } else {
-                        for e in &entries {
-                            results.push(Some(stream.next(e).is_ok()));
-                            bounds.push(w.got.lock().unwrap().len());
-                            calls_at.push(*w.calls.lock().unwrap());
-                        }
+                        drive!(pristine.clone().output_to(w.clone()))
                     }
                 }));
                 let got = w.got.lock().unwrap().clone();
                 let names: Vec<&str> = seq.iter().map(|&k| kinds[k].0).collect();
-                let replay = json!({"history": names, "through": if via_sink { "FlushImmediately over Emf::output_to" } else { "Emf::output_to stream" }, "hard_error_at_write_call": fail_at, "error_kind": format!("{kind:?}"), "received": String::from_utf8_lossy(&got)});
+                let replay = json!({"history": names, "through": format!("{}{}", if via_sink { "FlushImmediately over " } else { "" }, if make_writer { "Emf::output_to_makewriter stream" } else { "Emf::output_to stream" }), "hard_error_at_write_call": fail_at, "error_kind": format!("{kind:?}"), "received": String::from_utf8_lossy(&got)});
                 st.classes.insert(format!("history:{}:{}", names.join(","), fail_at.is_some()));
                 if r.is_err() {
                     st.v.add("history:panicked", "appending panicked", replay);
